@@ -14,12 +14,12 @@ PROPS = {
         "not_covered": ["element-level traits' from_derive_input etc. are covered under C08/C16", "L2 with_inherited/as_codegen_field are exercised only through the emitted code, not separately contracted"],
     },
     "C02": {
-        "units": ["l1_error_api", "c05_accumulator", "c16_body_conversion", "c14_maps", "c17_sibling_alts"],
+        "units": ["l1_error_api", "c05_accumulator", "c16_body_conversion", "c14_maps", "c02_sibling_shape"],
         "gen": [{"corpus": "structs", "mode": "err", "unit_span": True}, {"corpus": "enums", "mode": "full", "unit_span": True}, {"corpus": "elems", "mode": "full", "unit_span": True}],
         "classes": r"postcondition|invariant|post-condition of closure",
         "level_text": "Same emitted functions proved equal to the full oracle: Err(e_multiple(mistakes)) with one error per unknown name, repeat, literal item, "
                       "failed conversion (located at name / name[i]), flatten failure and missing field, in order; Ok iff none. Spans are erased in this view (rule R20: every `.with_span(..)` of the emitted code is dropped and the oracle attaches none; with_span changes only the span field, proved in l1_error_api), so only C03 sees whether and which span an error carries.",
-        "level_note": "Proof per program; programs sampled. Accumulator/Error::multiple contracts proved on real bodies. Body-layer conversion (Data/Fields::try_from) and maps are under C16/C14.",
+        "level_note": "Proof per program; programs sampled. Accumulator/Error::multiple contracts proved on real bodies. Body-layer conversion (Data/Fields::try_from) and maps are under C16/C14. add_sibling_alts_for_unknown_field is proved (c02_sibling_shape) to return a tree alike to its argument - same bundles, same children in order, same kinds, names, locations, spans - whatever it does with suggestions (C17).",
         "design_ref": "DESIGN.md section 6 C02",
         "assumptions": "L3",
     },
@@ -308,7 +308,7 @@ PROPS = {
     "C07": {
         "ignore_tags": True,
         "classes_text": r"assertion failed :: .*(__live|__armed)",
-        "units": ["c11_ints", "c11_nonzero", "c11_misc", "c13_syn_values", "c12_wrappers", "c15_routing", "c18_shape", "c16_body_conversion", "c16_generics", "c14_maps", "c14_key_ident", "c08_parse_attribute", "c04_syn_conversion", "c04_error_tree", "c05_accumulator", "c17_sibling_alts"],
+        "units": ["c11_ints", "c11_nonzero", "c11_misc", "c13_syn_values", "c12_wrappers", "c15_routing", "c18_shape", "c16_body_conversion", "c16_generics", "c14_maps", "c14_key_ident", "c08_parse_attribute", "c04_syn_conversion", "c04_error_tree", "c05_accumulator", "c17_sibling_alts", "c13_arrays", "c13_parse_expr", "c13_callable_group", "c12_ident_atomic", "c12_override_expr"],
         "gen": [{"corpus": "structs", "mode": "full"}, {"corpus": "enums", "mode": "full"}, {"corpus": "elems", "mode": "full"}, {"corpus": "supports", "mode": "full"}],
         "classes": r"precondition not satisfied|overflow|underflow|division by zero|index out of|unreachable|panic",
         "level_text": "Every expect()/unwrap/index/arithmetic site and every accumulator-armed precondition in the emitted parsers is a proved Verus precondition for all inputs "
